@@ -672,6 +672,49 @@ def coarse_dedup_skips(fnode: ast.AST) -> List[Tuple[ast.AST, ast.For, str]]:
     return out
 
 
+def coarse_memos(fnode: ast.AST) -> List[Tuple[ast.Assign, str, List[str]]]:
+    """Memoisation sites ``if K not in D: D[K] = V`` (also ``if K in D: return D[K]`` first) whose
+    key K is *derived* from a parameter through a call while the cached value V is computed from
+    that parameter itself: two different arguments that the derivation maps to one key share a
+    cache entry.  Returns (the store, text of K, parameters V uses that K does not carry)."""
+    a = fnode.args
+    params = [x.arg for x in a.posonlyargs + a.args + a.kwonlyargs if x.arg not in ("self", "cls")]
+    out: List[Tuple[ast.Assign, str, List[str]]] = []
+    for st in [n for n in _walk_same_function(fnode) if isinstance(n, ast.Assign) and len(n.targets) == 1 and
+               isinstance(n.targets[0], ast.Subscript)]:
+        tgt = st.targets[0]
+        cont = ast.unparse(tgt.value)
+        key = tgt.slice
+        ktxt = ast.unparse(key)
+        # guarded by "K not in D"
+        memo = False
+        for t, pol in guards(st, stop=fnode):
+            for at_, p_ in conjuncts(t, pol):
+                if isinstance(at_, ast.Compare) and len(at_.ops) == 1 and \
+                        isinstance(at_.ops[0], (ast.In, ast.NotIn)) and \
+                        ast.unparse(at_.comparators[0]) in (cont, cont + ".keys()") and \
+                        ast.unparse(at_.left) == ktxt and (isinstance(at_.ops[0], ast.NotIn) == p_):
+                    memo = True
+        if not memo:
+            continue
+        # names the key carries *as they are* (not wrapped in a call), after local resolution
+        kres = resolve_flow(key, st, fnode, depth=4)
+        wrapped: Set[int] = set()
+        for c in ast.walk(kres):
+            if isinstance(c, ast.Call):
+                for x in ast.walk(c):
+                    if x is not c:
+                        wrapped.add(id(x))
+        plain = {x.id for x in ast.walk(kres) if isinstance(x, ast.Name) and id(x) not in wrapped}
+        direct = load_names(st.value) - plain          # what V uses besides the key itself
+        vnames, _ = backward_slice(fnode, sorted(direct), with_control=False)
+        vdeps = (vnames | direct) & set(params)
+        missing = sorted(vdeps - plain)
+        if missing:
+            out.append((st, ktxt, missing))
+    return out
+
+
 def lost_updates(fnode: ast.AST) -> List[Tuple[ast.Assign, ast.For, str]]:
     """``X = <computed from the loop element>`` inside a ``for`` loop where X is
     not an operand of its own new value, is not read anywhere in the loop, the
